@@ -118,7 +118,7 @@ TITLE_POOL = ("A", "a", "A 1", "A_1")
 
 
 def titles_distinct(i, j, k, same12, same23):
-    from vf.common import parse_s, get_object_classes, serialize_python, exec_module, classes_of
+    from vf.common import parse_s, get_object_classes, serialize_python, exec_generated, classes_of
 
     def sch(title, variant):
         return {"type": "object", "title": title, "properties": {"x": {"type": "integer", "minimum": variant}}}
@@ -133,7 +133,9 @@ def titles_distinct(i, j, k, same12, same23):
     names = [c.__name__ for c in classes]
     if len(set(names)) != len(names):
         return False
-    ns = exec_module(serialize_python(root))
+    ns = exec_generated(serialize_python(root))
+    if ns is None:
+        return False
     gen = classes_of(ns)
     return set(gen) == set(names) and all(gen[c.__name__] == c for c in classes)
 
